@@ -52,6 +52,7 @@ impl Prop for C11 {
             "exact_fit",
             "alloc_counted_on_failing_message",
             "alloc_counted_on_corrupted_message",
+            "alloc_counted_on_typed_conversion",
         ];
         v.into_iter().map(String::from).collect()
     }
@@ -80,7 +81,15 @@ impl Prop for C11 {
         };
         for _ in 0..nsetup {
             let mut corrupt = vec![];
-            let msg = match g.rng.below(4) {
+            let msg = match g.rng.below(6) {
+                4 | 5 => {
+                    // parameter conversion must not allocate either: typed pulls over literals with
+                    // suffixes, keywords, lists (may succeed or fail; only allocation is judged)
+                    let mut u = g.uniq;
+                    let m = crate::props::c01::hostile_msg(g.rng, &g.tc, &mut u);
+                    g.uniq = u;
+                    m
+                }
                 0 => g.app_msg(3),
                 1 | 2 => {
                     let mut m = g.app_msg(3);
@@ -204,6 +213,9 @@ impl Prop for C11 {
                             } else {
                                 "alloc_counted_on_corrupted_message"
                             });
+                        }
+                        if o.calls.iter().any(|c| c.pulls.iter().any(|p| matches!(p, PullObs::Value(_)))) {
+                            stats.probe("alloc_counted_on_typed_conversion");
                         }
                         if o.allocs != 0 {
                             out.push(Finding::new(
